@@ -1,11 +1,11 @@
 #!/bin/bash
 # usage: tools/verify_seed.sh <seed-dir> <crate> <features> [demo-file]
-# Confirms a seeded change in a scratch worktree (/tmp/wt_verify): demo must PASS on the pinned tree, then with the patch
+# Confirms a seeded change in a scratch worktree ($WT, default /tmp/wt_verify; several worktrees can run in parallel): demo must PASS on the pinned tree, then with the patch
 # applied the demo must FAIL and the workspace test suite must still pass (the 3 known always-fail tests tolerated; tests
 # that fail under machine load are re-run alone at low parallelism and must pass there); then the tree is reverted.
 set -u
 SD=$(realpath $1); CRATE=$2; FEAT=$3; DEMO=${4:-demo.rs}
-WT=/tmp/wt_verify
+WT=${WT:-/tmp/wt_verify}
 export CARGO_TARGET_DIR=$WT/target
 if [ ! -d $WT ]; then git -C /repo worktree add --detach $WT HEAD -q; fi
 cd $WT && git checkout -q --detach $(git -C /repo rev-parse HEAD) && git checkout -- . && git clean -fdq -e target
